@@ -6,9 +6,9 @@ root = os.path.dirname(os.path.dirname(os.path.abspath(__file__)))
 rows = []
 def key(d):
     n = os.path.basename(d)
-    r2 = n.startswith("r2-")
+    rnd = 2 if n.startswith("r2-") else 3 if n.startswith("r3-") else 1
     m = re.search(r"C(\d+)-(\d+)", n)
-    return (int(m.group(1)), r2, int(m.group(2)))
+    return (int(m.group(1)), rnd, int(m.group(2)))
 for d in sorted(glob.glob(os.path.join(root, "seeded", "*C*-*")), key=key):
     mp = os.path.join(d, "meta.json")
     if not os.path.exists(mp):
